@@ -211,7 +211,10 @@ Section BufferProofs.
   Theorem history_answers_meet_spec :
     forall (good : T -> Prop), preorder_on good le -> 0 < C ->
     forall ops b, b_run (@b_empty T) ops = Ok b -> all_good good (b_logical b) ->
-    wf C (b_logical b) /\ length (b_logical b) = brows b /    (exists o, buf_max_generic le b = Ok o /\ max_spec le (b_logical b) o) /    (exists o, buf_argmax_generic le b = Ok o /\ argmax_spec le C (b_logical b) o) /    (forall t, threshold_spec le (b_logical b) t (buf_threshold_generic le b t)).
+    wf C (b_logical b) /\ length (b_logical b) = brows b /\
+    (exists o, buf_max_generic le b = Ok o /\ max_spec le (b_logical b) o) /\
+    (exists o, buf_argmax_generic le b = Ok o /\ argmax_spec le C (b_logical b) o) /\
+    (forall t, threshold_spec le (b_logical b) t (buf_threshold_generic le b t)).
   Proof.
     intros good PO HC ops b H G.
     assert (Hb : binv b) by (eapply b_run_inv; [apply binv_empty | exact H]).
@@ -224,6 +227,61 @@ Section BufferProofs.
     intro t. rewrite buf_threshold_generic_logical by exact Hb. apply threshold_generic_ok.
   Qed.
 End BufferProofs.
+
+(* ---- the statement skeletons read from the source (GenMaxi.v) against the model ---- *)
+Section SkeletonProofs.
+  Context {T : Type}.
+  Variable dflt : T.
+  Variable C : nat.
+
+  Lemma vec_resize_firstn : forall (d : list (list T)) n,
+    vec_resize dflt C (firstn n d) n = vec_resize dflt C d n.
+  Proof.
+    intros d n. unfold vec_resize. rewrite firstn_firstn, Nat.min_id, firstn_length.
+    destruct (Nat.le_ge_cases n (length d)) as [H|H].
+    - replace (n - Nat.min n (length d)) with 0 by lia. replace (n - length d) with 0 by lia. reflexivity.
+    - rewrite Nat.min_r by lia. reflexivity.
+  Qed.
+
+  Lemma vec_resize_idem : forall (d : list (list T)) n,
+    vec_resize dflt C (vec_resize dflt C d n) n = vec_resize dflt C d n.
+  Proof.
+    intros d n. unfold vec_resize at 1. rewrite (vec_resize_length dflt C).
+    rewrite Nat.sub_diag. cbn [repeat]. rewrite app_nil_r.
+    apply firstn_all2. rewrite (vec_resize_length dflt C). lia.
+  Qed.
+
+  Lemma firstn_vec_resize : forall (d : list (list T)) n,
+    firstn n (vec_resize dflt C d n) = vec_resize dflt C d n.
+  Proof. intros d n. apply firstn_all2. rewrite (vec_resize_length dflt C). lia. Qed.
+
+  Lemma grow_only_after_truncate : forall (d : list (list T)) n,
+    vec_resize_grow_only dflt C (firstn n d) n = vec_resize dflt C d n.
+  Proof.
+    intros d n. unfold vec_resize_grow_only. rewrite firstn_length.
+    destruct (Nat.min n (length d) <? n) eqn:E.
+    - apply vec_resize_firstn.
+    - apply Nat.ltb_ge in E. unfold vec_resize. replace (n - length d) with 0 by lia.
+      cbn [repeat]. now rewrite app_nil_r.
+  Qed.
+
+  (* every view the code has of the rows is the logical rows, whichever of the recognised
+     sources Iter::new and the scans use *)
+  Lemma views_are_logical : forall (it : iter_source) (src : scan_source) (b : @buffer T),
+    binv C b -> b_iter_of it b = b_logical b /\ scan_rows_of it src b = b_logical b.
+  Proof.
+    intros it src b Hb. pose proof (iter_is_logical C b Hb) as Hi. unfold b_iter in Hi.
+    destruct it, src; cbn [b_iter_of scan_rows_of]; split; try exact Hi; reflexivity.
+  Qed.
+End SkeletonProofs.
+
+(* tactic for C07_source_buffer: normalises the recognised equivalent statement orders *)
+Ltac resize_norm dflt C :=
+  cbv [dm_resize_of ss_resize_of scores_stmt_exec fold_left dense_stmt_exec dm_resize b_step];
+  cbn [bdata brows bmi];
+  rewrite ?(grow_only_after_truncate dflt C), ?(vec_resize_firstn dflt C), ?(vec_resize_idem dflt C),
+          ?(firstn_vec_resize dflt C);
+  reflexivity.
 
 (* the seeded variant is refuted: a 2-row buffer filled with 9, shrunk to 1 row and rewritten
    with 1s answers 9 at row 1 -- a value and a cell that are not in the 1-row matrix *)
